@@ -26,6 +26,16 @@ def err_name(e):
         return 'EvolutionaryConceptError'
     return 'Other:' + type(e).__name__
 
+def safe(x):
+    """a description of a pyham object that cannot raise (pyham's own __repr__ can)"""
+    try:
+        return nodekey(x)
+    except Exception:      # noqa
+        try:
+            return '%s#%s' % (type(x).__name__, getattr(x, 'unique_id', getattr(x, 'hog_id', '?')))
+        except Exception:  # noqa
+            return type(x).__name__
+
 def pathof(node):
     p = []
     while node.up is not None:
@@ -66,18 +76,18 @@ def forestS(n, problems, seen=None):
     if seen is None:
         seen = set()
     if id(n) in seen:
-        problems.append('object reachable twice: %r' % n)
+        problems.append('object reachable twice: %s' % safe(n))
         return 'CYCLE'
     seen.add(id(n))
     if isinstance(n, ag.Gene):
         return 'G[%s@%s %s]' % (n.unique_id, taxS(gtax(n)), flagS(n))
     if n.genome is None:
-        problems.append('HOG without genome: %r' % n)
+        problems.append('HOG without genome: %s' % safe(n))
         return 'H[?]'
     kids = []
     for c in n.children:
         if c.parent is not n:
-            problems.append('child.parent is not hog: child %s of %s' % (c, nodekey(n)))
+            problems.append('child.parent is not hog: child %s of %s' % (safe(c), safe(n)))
         kids.append(forestS(c, problems, seen))
     dups = []
     for d in n.duplications:
